@@ -63,6 +63,7 @@ const (
 	GLAddr         // GenAddr
 	GLNamedComplex // GenGain
 	GLDurations    // []time.Duration
+	GLUintptr
 )
 
 type GenLeaf struct {
@@ -160,6 +161,7 @@ func genPtrShapes() []genShape {
 		{name: "Gain", t: reflect.TypeOf(GenGain(0)), leaves: []GenLeaf{{Kind: GLNamedComplex}}},
 		{name: "[]Duration", t: reflect.TypeOf([]time.Duration(nil)), leaves: []GenLeaf{{Kind: GLDurations}}},
 		{name: "int8", t: reflect.TypeOf(int8(0)), leaves: []GenLeaf{{Kind: GLInt8}}},
+		{name: "uintptr", t: reflect.TypeOf(uintptr(0)), leaves: []GenLeaf{{Kind: GLUintptr}}},
 	}
 }
 
@@ -322,6 +324,8 @@ func GenLeafIs(v reflect.Value, kind int, n int8) bool {
 		return v.Len() == 3 && v.Index(0).Uint() == 'a'
 	case GLDurations:
 		return v.Len() == 2 && v.Index(0).Int() == int64(time.Second) && v.Index(1).Int() == int64(2*time.Second)
+	case GLUintptr:
+		return v.Uint() == 9
 	}
 	return false
 }
@@ -376,6 +380,8 @@ func GenText(kind int, n string) string {
 		return "abc"
 	case GLDurations:
 		return "1s,2s"
+	case GLUintptr:
+		return "9"
 	}
 	return ""
 }
